@@ -472,6 +472,8 @@ UNREGISTERED = {
 	# float division at zoom >= 24 did not finish in 2400 s
 	"c15_h12_geo_x_z24", "c15_h12_geo_x_z31", "c15_h6_count",
 	"c15_h7_index_roundtrip",
+	# structured vector-tile layers through Box<dyn ValueReader> sub-readers: no verdict in 2400 s
+	"c11_layer_read_2_2", "c11_layer_reencode_2_2", "c10_layer_merge_2_2",
 	# ran out of memory / time at the thorough caps
 	"c16_block_index_sparse", "c15_h11_pyramid_include_l0", "c15_h11_pyramid_include_l7", "c15_h11_pyramid_include_l31",
 }
@@ -483,6 +485,8 @@ TIER_OVERRIDE = {
 	"c19_entries_v3_any_2": "thorough", "c15_h8_iter_coords_2x2": "thorough", "c15_h11_pyramid_include_l7": "thorough",
 	"c15_h9_grid_s2_1x2": "thorough", "c15_h9_grid_s256_256x1": "thorough",
 }
+if "C10" in PROPS:
+	del PROPS["C10"]  # the layer-merge harness did not finish (2400 s); the operation itself is async + dyn (DESIGN.md 0.2)
 if "C17" in PROPS:
 	del PROPS["C17"]  # no harness of the JSON string kernel finished (DESIGN.md 0.2 item 5, section 8 fallback rule)
 for _pid, _spec in PROPS.items():
